@@ -133,3 +133,23 @@ def run(cr: CheckRun) -> None:
     cr.cov["evaluations"] += nev
     cr.cov.setdefault("campaigns", []).append({"name": "uart", "traces": ntr, "events": nev, "rejected_steps": len(bad)})
     cr.mark("uart")
+
+
+def selftest(seed: int) -> int:
+    """binding demonstration: a pristine recorded trace is accepted; one flipped status bit, one dropped event are rejected"""
+    import json
+    ev, _ = _drive(0, random_sequences(random.Random(seed + 5), 40), None)
+    ok = True
+    if vlib.tlc_judge_trace("C11", SD, "TraceUart", "TraceUart.cfg", ev, "uself0"):
+        print("selftest uart: pristine trace rejected"); ok = False
+    bad = json.loads(json.dumps(ev))
+    k = [i for i, e in enumerate(bad) if e.get("k") == "TxDone" and e["ret"]][0]
+    bad[k]["usr"] ^= 0x10
+    if not any(b["line"] == k + 1 for b in vlib.tlc_judge_trace("C11", SD, "TraceUart", "TraceUart.cfg", bad, "uself1")):
+        print("selftest uart: corrupted status accepted"); ok = False
+    k = [i for i, e in enumerate(ev) if e.get("k") == "QueueRx"][0]
+    dropped = ev[:k] + ev[k + 1:]
+    if not vlib.tlc_judge_trace("C11", SD, "TraceUart", "TraceUart.cfg", dropped, "uself2"):
+        print("selftest uart: trace with a dropped event accepted"); ok = False
+    print("selftest uart:", "ok" if ok else "FAILED")
+    return 0 if ok else 2
